@@ -472,6 +472,10 @@ WCLAllowed(st, e, obs) ==
      ELSE sent
 WCLNext(st) == [st EXCEPT !.sentClose = TRUE]
 
+(* WriteControl(ping) with a deadline in the past: C11 promises a timeout error, nothing written, connection  *)
+(* not poisoned; the read side is not affected at all.  After a close was sent ErrCloseSent is as good (C09).  *)
+WCPAllowed(st, e, obs) == obs = << >> /\ (e.cls = "timeout" \/ ((st.sentClose \/ st.failed) /\ e.cls = "closesent"))
+
 RJLazyNext(w1, obs) == [w1.s EXCEPT !.lazy = TRUE, !.zobs = Len(obs) - Len(w1.obs)]
 RJFaultNext(w2) == [w2.s EXCEPT !.rd = "err", !.failed = TRUE]
 
